@@ -38,7 +38,8 @@ package server
 
 //@ func converError
 //@ props C01 C04
-//@ ensures (result == nil) == (err == nil)
+//@ ensures err == nil ==> result == nil
+//@ ensures err != nil && (err.(type *codes.Error) ==> err.(*codes.Error) != nil) ==> result != nil
 //@ ensures err != nil && err.(type *codes.Error) ==> result == err.(*codes.Error)
 //@ ensures err != nil && !err.(type *codes.Error) ==> isfresh(result) && result.Code == 128
 
